@@ -114,6 +114,7 @@ func vBez3(p0, p1, p2, p3, t Fl) Fl {
 //@   modifies c.path, c.path[..]
 //@   ensures fresh(c.path) || samebase(c.path, old(c.path))
 //@   ensures len(c.path) == old(len(c.path)) + 1 && c.path[len(c.path)-1].op == cubicTo && c.path[len(c.path)-1].args[2].x == x3 && c.path[len(c.path)-1].args[2].y == y3
+//@   ensures c.path[len(c.path)-1].args[0].x == x1 && c.path[len(c.path)-1].args[0].y == y1 && c.path[len(c.path)-1].args[1].x == x2 && c.path[len(c.path)-1].args[1].y == y2
 //@ func (*pathParser).quadTo
 //@   props C18
 //@   nopanic
@@ -121,6 +122,7 @@ func vBez3(p0, p1, p2, p3, t Fl) Fl {
 //@   modifies c.path, c.path[..], c.currentX, c.currentY
 //@   ensures fresh(c.path) || samebase(c.path, old(c.path))
 //@   ensures len(c.path) == old(len(c.path)) + 1 && c.currentX == x2 && c.currentY == y2
+//@   ensures[elevated] c.path[len(c.path)-1].op == cubicTo && c.path[len(c.path)-1].args == quadraticToCubic(old(c.currentX), old(c.currentY), x1, y1, x2, y2)
 
 // relative coordinates: each value is offset by the (already absolute) previous one
 //@ func (*pathParser).valsToAbs
@@ -225,6 +227,29 @@ func vBez3(p0, p1, p2, p3, t Fl) Fl {
 //@   ensures[vertical] result == nil && (op == 'V' || op == 'v') ==> len(c.points) >= 1 && c.currentY == c.points[len(c.points)-1] && c.currentX == old(c.currentX)
 //@   ensures[horizontal] result == nil && (op == 'H' || op == 'h') ==> len(c.points) >= 1 && c.currentX == c.points[len(c.points)-1] && c.currentY == old(c.currentY)
 //@   ensures[lastkey] result == nil ==> c.lastKey == op
+//@   ensures[smooth-cubic-end] result == nil && (op == 'S' || op == 's') ==> len(c.points) >= 4 && c.currentX == c.points[len(c.points)-2] && c.currentY == c.points[len(c.points)-1] && c.cntlPtX == c.points[len(c.points)-4] && c.cntlPtY == c.points[len(c.points)-3]
+//@   ensures[smooth-quad-end] result == nil && (op == 'T' || op == 't') ==> len(c.points) >= 2 && c.currentX == c.points[len(c.points)-2] && c.currentY == c.points[len(c.points)-1]
+// the segments handed to the path builder, per command (SVG 1.1 §8.3.2-8.3.7)
+//@   call moveTo#1 assert arg1 == c.points[0] && arg2 == c.points[1]
+//@   call lineTo#1 assert arg1 == c.points[i] && arg2 == c.points[i+1]
+//@   call lineTo#2 assert arg1 == c.points[i] && arg2 == c.points[i+1]
+//@   call lineTo#3 assert arg1 == old(c.currentX) && arg2 == p
+//@   call lineTo#4 assert arg1 == p && arg2 == old(c.currentY)
+//@   call quadTo#1 assert arg1 == c.points[i] && arg2 == c.points[i+1] && arg3 == c.points[i+2] && arg4 == c.points[i+3]
+//@   call quadTo#1 assert i == 0 ==> c.currentX == old(c.currentX) && c.currentY == old(c.currentY)
+//@   call quadTo#1 assert i > 0 ==> c.currentX == c.points[i-2] && c.currentY == c.points[i-1]
+// T/t: the control point is the reflection of the previous one only after Q, q, T or t — and the
+// previous group of the same T command counts as such
+//@   call reflectControlQuad#1 assert i == 0 ==> c.lastKey == old(c.lastKey) && c.cntlPtX == old(c.cntlPtX) && c.cntlPtY == old(c.cntlPtY) && c.currentX == old(c.currentX) && c.currentY == old(c.currentY)
+//@   call reflectControlQuad#1 assert i > 0 ==> c.lastKey == op && c.currentX == c.points[i-2] && c.currentY == c.points[i-1]
+//@   call quadTo#2 assert arg1 == c.cntlPtX && arg2 == c.cntlPtY && arg3 == c.points[i] && arg4 == c.points[i+1]
+//@   call cubicTo#1 assert arg1 == c.points[i] && arg2 == c.points[i+1] && arg3 == c.points[i+2] && arg4 == c.points[i+3] && arg5 == c.points[i+4] && arg6 == c.points[i+5]
+// S/s: first control point = reflection of the previous second control point about the current
+// point after C, c, S, s (incl. the previous group of this command), else the current point
+//@   call cubicTo#2 assert i == 0 && in(old(c.lastKey), 'c', 'C', 's', 'S') ==> arg1 == 2*old(c.currentX) - old(c.cntlPtX) && arg2 == 2*old(c.currentY) - old(c.cntlPtY)
+//@   call cubicTo#2 assert i == 0 && !in(old(c.lastKey), 'c', 'C', 's', 'S') ==> arg1 == old(c.currentX) && arg2 == old(c.currentY)
+//@   call cubicTo#2 assert i > 0 ==> arg1 == 2*c.points[i-2] - c.points[i-4] && arg2 == 2*c.points[i-1] - c.points[i-3]
+//@   call cubicTo#2 assert arg3 == c.points[i] && arg4 == c.points[i+1] && arg5 == c.points[i+2] && arg6 == c.points[i+3]
 //@   ensures[arrays] (fresh(c.path) || samebase(c.path, old(c.path))) && (fresh(c.points) || samebase(c.points, old(c.points)))
 //@   loop 1 invariant L == len(c.points) && L >= 2 && L % 2 == 0 && i >= 2 && i % 2 == 0 && c.inPath && c.pathStartX == c.points[0] && c.pathStartY == c.points[1]
 //@   loop 1 invariant (fresh(c.path) || samebase(c.path, old(c.path))) && (fresh(c.points) || samebase(c.points, old(c.points)))
@@ -239,15 +264,20 @@ func vBez3(p0, p1, p2, p3, t Fl) Fl {
 //@   loop 4 invariant (fresh(c.path) || samebase(c.path, old(c.path))) && (fresh(c.points) || samebase(c.points, old(c.points)))
 //@   loop 4 decreases L - rangeindex
 //@   loop 5 invariant L == len(c.points) && L >= 4 && L % 4 == 0 && i >= 0 && i % 4 == 0
+//@   loop 5 invariant (i == 0 ==> c.currentX == old(c.currentX) && c.currentY == old(c.currentY)) && (i > 0 ==> c.currentX == c.points[i-2] && c.currentY == c.points[i-1])
 //@   loop 5 invariant (fresh(c.path) || samebase(c.path, old(c.path))) && (fresh(c.points) || samebase(c.points, old(c.points)))
 //@   loop 5 decreases L - i
-//@   loop 6 invariant L == len(c.points) && L >= 2 && L % 2 == 0 && i >= 0 && i % 2 == 0
+//@   loop 6 invariant L == len(c.points) && L >= 2 && L % 2 == 0 && i >= 0 && i % 2 == 0 && i <= L
+//@   loop 6 invariant i == 0 ==> c.lastKey == old(c.lastKey) && c.cntlPtX == old(c.cntlPtX) && c.cntlPtY == old(c.cntlPtY) && c.currentX == old(c.currentX) && c.currentY == old(c.currentY)
+//@   loop 6 invariant i > 0 ==> c.lastKey == op && c.currentX == c.points[i-2] && c.currentY == c.points[i-1]
 //@   loop 6 invariant (fresh(c.path) || samebase(c.path, old(c.path))) && (fresh(c.points) || samebase(c.points, old(c.points)))
 //@   loop 6 decreases L - i
 //@   loop 7 invariant L == len(c.points) && L >= 6 && L % 6 == 0 && i >= 0 && i % 6 == 0
 //@   loop 7 invariant (fresh(c.path) || samebase(c.path, old(c.path))) && (fresh(c.points) || samebase(c.points, old(c.points)))
 //@   loop 7 decreases L - i
-//@   loop 8 invariant L == len(c.points) && L >= 4 && L % 4 == 0 && i >= 0 && i % 4 == 0
+//@   loop 8 invariant L == len(c.points) && L >= 4 && L % 4 == 0 && i >= 0 && i % 4 == 0 && i <= L
+//@   loop 8 invariant i == 0 ==> c.lastKey == old(c.lastKey) && c.cntlPtX == old(c.cntlPtX) && c.cntlPtY == old(c.cntlPtY) && c.currentX == old(c.currentX) && c.currentY == old(c.currentY)
+//@   loop 8 invariant i > 0 ==> c.lastKey == op && c.cntlPtX == c.points[i-4] && c.cntlPtY == c.points[i-3] && c.currentX == c.points[i-2] && c.currentY == c.points[i-1]
 //@   loop 8 invariant (fresh(c.path) || samebase(c.path, old(c.path))) && (fresh(c.points) || samebase(c.points, old(c.points)))
 //@   loop 8 decreases L - i
 //@   loop 9 invariant L == len(c.points) && L >= 7 && L % 7 == 0 && i >= 0 && i % 7 == 0
